@@ -221,6 +221,44 @@ func oracleC03(p *plan.Plan, his []plan.Rec, res *plan.Result) {
 		return ks[k]
 	}
 	stable, lastEvent, opsInWindow := false, int64(-1), 0
+	// Membership events that are still "pending" at simulated time t: events invoked before t that
+	// no successful stabilisation wait - started after the event and finished before t - has closed.
+	// (A wait is invoked right after the event and returns seconds later; everything issued in
+	// between is inside the hand-over window.)
+	var evTimes []int64
+	var waits [][2]int64
+	for i := range recs {
+		r := &recs[i]
+		switch r.Op.K {
+		case "ctl.join", "ctl.leave", "ctl.crash", "ctl.crash_inflight":
+			if r.Err != "skipped" {
+				evTimes = append(evTimes, r.TInv)
+			}
+		case "ctl.wait_stable":
+			if r.Err == "" {
+				waits = append(waits, [2]int64{r.TInv, r.TRet})
+			}
+		}
+	}
+	pendingAt := func(t int64) int {
+		n := 0
+		for _, e := range evTimes {
+			if e > t {
+				continue
+			}
+			closed := false
+			for _, w := range waits {
+				if w[0] >= e && w[1] <= t {
+					closed = true
+				}
+			}
+			if !closed {
+				n++
+			}
+		}
+		return n
+	}
+	_ = lastEvent
 	// membership events since the cluster last stabilised: with two or more, a fragment can arrive on a
 	// member that has meanwhile been replaced as owner and is not listed as a previous owner yet
 	// (known finding "overlapping-membership-changes")
@@ -234,6 +272,12 @@ func oracleC03(p *plan.Plan, his []plan.Rec, res *plan.Result) {
 	var snap *plan.Snapshot
 	for i := range recs {
 		r := &recs[i]
+		pendingEvents = pendingAt(r.TInv)
+		if pendingEvents > 0 {
+			lastEvent = r.TInv
+		} else {
+			lastEvent = -1
+		}
 		switch r.Op.K {
 		case "ctl.join", "ctl.leave", "ctl.crash", "ctl.crash_inflight":
 			if r.Err == "skipped" {
@@ -243,8 +287,6 @@ func oracleC03(p *plan.Plan, his []plan.Rec, res *plan.Result) {
 			if strings.HasPrefix(r.Err, "other:") {
 				res.Status, res.Reason = "inconclusive", "member start failed: "+r.Err
 			}
-			lastEvent = r.TInv
-			pendingEvents++
 		case "ctl.wait_stable":
 			if r.Err != "" {
 				viol(res, "hand-over-not-completed", p.Variant+stormTag(r.Err), "strict stabilisation (%s) not reached within the bound: %s", r.Op.Tag, r.Err)
@@ -252,8 +294,6 @@ func oracleC03(p *plan.Plan, his []plan.Rec, res *plan.Result) {
 				if r.Op.Tag == "final" {
 					stable = true
 				}
-				lastEvent = -1
-				pendingEvents = 0
 			}
 		case "ctl.snapshot":
 			snap = r.Snap
@@ -346,6 +386,7 @@ func oracleC03(p *plan.Plan, his []plan.Rec, res *plan.Result) {
 		return
 	}
 	live := map[string]bool{}
+	reported := map[string]bool{}
 	nrun := 0
 	if snap != nil {
 		nrun = len(snap.Members)
@@ -374,6 +415,7 @@ func oracleC03(p *plan.Plan, his []plan.Rec, res *plan.Result) {
 				}
 				seen[v] = true
 				if !st.vals[v] {
+					reported[r.Op.Key] = true
 					class := "wrong-final-value"
 					if v == "" {
 						class = "key-lost"
@@ -429,6 +471,9 @@ func oracleC03(p *plan.Plan, his []plan.Rec, res *plan.Result) {
 			for k, c := range got {
 				if c > 1 {
 					viol(res, "scan-duplicate", k, "scan via %s yielded %s %d times", r.Op.Tag, k, c)
+				}
+				if reported[k] {
+					continue // the key's wrong value has been reported by the reads above
 				}
 				if st := ks[k]; st == nil || (!live[k] && len(keysOf(st.vals)) == 1 && st.vals[""]) {
 					viol(res, "scan-yields-dead-key", k, "scan via %s yielded %s which is deleted or was never stored", r.Op.Tag, k)
